@@ -1,4 +1,5 @@
 import PlushModel
+import PlushModel.Gen.EvalDispatch
 /-!
   C16 — user-defined functions bind parameters to argument values and return their value.
   Theorems about `evalUserFn` / `unwrapReturn` (the model of evalUserFunction after the fix: commit),
@@ -95,5 +96,13 @@ theorem C16_return_skips_rest (fuel : Nat) (st : Stmt) (rest : List Stmt) (acc v
     (h : evalStmt fuel st s = (.ok (.ret vs), s1)) :
     evalStmts (fuel + 1) (st :: rest) acc s = (.ok (.ret (acc ++ [.ret vs])), s1) := by
   simp [evalStmts, bind, h, pure]
+
+/-- THE FRESH SCOPE OF A FUNCTION CALL (AND OF A LOOP, AND OF AN INDEX TAIL) IS OPENED UNCONDITIONALLY: in /repo the
+    statement `c.ctx = ….New()` sits in the function body itself, not under an `if` (block depth 0; re-read on every
+    run) — and every scope switch restores by `defer` (`C09_every_scope_switch_is_deferred`). The model opens the
+    child scope unconditionally too (`evalUserFn`, `C16_body`). A scope opened only for some arities (seeded change
+    C16-i: not for zero parameters) changes the depth. -/
+theorem C16_scope_opened_unconditionally :
+    Gen.scopeOpenDepths = [("evalUserFunction", 0), ("evalForExpression", 0), ("evalIndexCallee", 0)] := rfl
 
 end Plush
